@@ -264,13 +264,13 @@ LAYOUT_LITERAL_REJECT = ["SchemaOption", "Custom", "FnClosure", "_"]
 LAYOUT_LITERAL_ACCEPT = ["ZeroSize"]
 
 
-@rule("Q3", ["C11", "C10"], floor=35, doc="Schema::layout_compatible is conservative and complete: yes only if size, alignment, "
+@rule("Q3", ["C11", "C10", "C09"], floor=35, doc="Schema::layout_compatible is conservative and complete: yes only if size, alignment, "
       "every field offset, discriminant width and values, collection layout are known on both sides and equal, recursively")
 def q3(facts, tier):
     f, tab, ex = extract(facts, "savefile::Schema::layout_compatible", "false")
     if f is None:
         return
-    P = ["C11", "C10"]
+    P = ["C11", "C10", "C09"]
     for arm, req in sorted(LAYOUT_REQUIRED.items()):
         for p in req.get("neq", []):
             ok = tab.neq(arm, p)
